@@ -137,13 +137,13 @@ int main() {
 }
 '''
 
-def _leafs(w):
-    """(symbol name, C++ access expression) for every numeric leaf of an MSSMNoFV_onshell object"""
+def _leafs(w, cls='MSSMNoFV_onshell'):
+    """(symbol name, C++ access expression) for every numeric leaf of an object of class cls (int/bool/enum leaves are named '#path')"""
     import z3
     from .symobj import symbolic_fields
     from .values import Mat, Obj, Cx
     it = Interp(w, mode='sym')
-    o = it.new_object('MSSMNoFV_onshell', symbolic_fields(None, prefix=''))
+    o = it.new_object(cls, symbolic_fields(None, prefix=''))
     out = []
     def expr(path, v):
         cpp = 'm.' + path
@@ -165,6 +165,8 @@ def _leafs(w):
                 expr(path + '.' + k2, v2)
         elif z3.is_expr(v):
             out.append((str(v), cpp))
+        elif isinstance(v, (bool, int)):
+            out.append(('#' + path, 'static_cast<double>(static_cast<int>(%s))' % cpp))
     for k, v in o.f.items():
         if k in ('problems',):
             continue
@@ -262,6 +264,133 @@ def mssm_model_guard(seed=0, repo=None):
                         mism.append({'fn': 'get_mass_matrix_%s(%d,%d)' % (n, i, j), 'interpreter': repr(float(g)), 'native': repr(want)})
         ok = not mism and (exact + approx) > 0 and len(uneval) <= 3
         return {'ok': ok, 'points': len(points), 'compared_bit_exact': exact, 'compared_to_1e-12': approx, 'mismatches': mism[:5], 'not_evaluated': uneval,
+                'data_members_copied': len(leafs)}
+    finally:
+        native.cleanup(wd)
+
+
+# ------------------------------------------------------------------------------------------------ model-level guard (THDM)
+THDM_FUNCS = [('src/THDM/gm2_1loop.cpp', 'calculate_amu_1loop'), ('src/THDM/gm2_2loop.cpp', 'calculate_amu_2loop_bosonic'), ('src/THDM/gm2_2loop.cpp', 'calculate_amu_2loop_fermionic'),
+              ('src/THDM/gm2_2loop.cpp', 'calculate_amu_2loop'), ('src/THDM/gm2_uncertainty.cpp', 'calculate_uncertainty_amu_0loop'),
+              ('src/THDM/gm2_uncertainty.cpp', 'calculate_uncertainty_amu_1loop'), ('src/THDM/gm2_uncertainty.cpp', 'calculate_uncertainty_amu_2loop')]
+THDM_GETTERS = ['get_alpha_h', 'get_beta', 'get_eta', 'get_tan_beta', 'get_zeta_u', 'get_zeta_d', 'get_zeta_l', 'get_v_sqr', 'get_sin_beta', 'get_cos_beta']
+
+THDM_MAIN = r'''
+#include <cstdio>
+#include <cmath>
+#include <complex>
+#include <string>
+#include <sstream>
+#include <iostream>
+#include <Eigen/Core>
+#define private public
+#define protected public
+#include "gm2calc/THDM.hpp"
+#undef private
+#undef protected
+#include "gm2calc/gm2_1loop.hpp"
+#include "gm2calc/gm2_2loop.hpp"
+#include "gm2calc/gm2_uncertainty.hpp"
+#include "gm2calc/gm2_error.hpp"
+#include "gm2calc/SM.hpp"
+int main() {
+   for (int k = 0; k < 6; k++) {
+      try {
+         gm2calc::thdm::Mass_basis b;
+         b.yukawa_type = static_cast<gm2calc::thdm::Yukawa_type>(1 + (k % 4));
+         b.mh = 125 + 3 * k; b.mH = 300 + 70 * k; b.mA = 280 + 90 * k; b.mHp = 350 + 40 * k;
+         b.sin_beta_minus_alpha = (k % 2 ? -1 : 1) * (0.999 - 0.03 * k); b.lambda_6 = 0.1 * k; b.lambda_7 = -0.05 * k; b.tan_beta = 1.5 + 4.5 * k; b.m122 = 4000. + 3000 * k;
+         gm2calc::SM sm;
+         gm2calc::thdm::Config cfg; cfg.running_couplings = (k % 3 != 0);
+         gm2calc::THDM m(b, sm, cfg);
+         std::printf("POINT %d\n", k);
+@DUMP@
+@FUNCS@
+@GETTERS@
+      } catch (const gm2calc::Error& e) { std::fprintf(stderr, "point %d: %s\n", k, e.what()); }
+   }
+   return 0;
+}
+'''
+
+def thdm_model_guard(seed=0, repo=None):
+    """the THDM a_mu, uncertainty and getter functions on 6 real mass-basis models (4 Yukawa types, with and without running couplings): every data member of
+    the real object is copied into the interpreter's object; results compared bit for bit (1e-12 relative where std::complex/pow library routines are involved)"""
+    import subprocess, z3
+    from .symobj import symbolic_fields
+    from .values import Mat, Cx, Obj
+    w = get_world(repo) if repo else get_world(None)
+    leafs = [l for l in _leafs(w, 'THDM')]
+    dump = '\n'.join('         std::printf("L %s %%a\\n", (double)(%s));' % (nm, acc) for nm, acc in leafs)
+    funcs = '\n'.join('         try { std::printf("F %s %%a\\n", gm2calc::%s(m)); } catch (const gm2calc::Error&) { std::printf("F %s nan\\n"); }' % (n, n, n) for f, n in THDM_FUNCS)
+    gets = '\n'.join('         std::printf("G %s %%a\\n", (double)m.%s());' % (n, n) for n in THDM_GETTERS)
+    src = THDM_MAIN.replace('@DUMP@', dump).replace('@FUNCS@', funcs).replace('@GETTERS@', gets)
+    wd = native.workdir('fidelity_thdm')
+    try:
+        exe = native.build_against_library(wd, src)
+        r = subprocess.run([exe], capture_output=True, text=True, timeout=300)
+        if r.returncode != 0:
+            return {'ok': False, 'error': 'native model dump failed: %s' % r.stderr[-500:]}
+        points, cur = [], None
+        for ln in r.stdout.splitlines():
+            t = ln.split()
+            if t[0] == 'POINT':
+                cur = {'L': {}, 'F': {}, 'G': {}}
+                points.append(cur)
+            elif t[0] in ('L', 'F', 'G'):
+                cur[t[0]][t[1]] = float.fromhex(t[2]) if t[2] not in ('nan', '-nan', 'inf', '-inf') else float(t[2])
+        exact = approx = attempts = 0
+        mism, uneval = [], {}
+        sym_it = Interp(w, mode='sym')
+        for pt in points:
+            vals = pt['L']
+            so = sym_it.new_object('THDM', symbolic_fields(None, prefix=''))
+            def conv(v, path=''):
+                if isinstance(v, Mat):
+                    return Mat(v.r, v.c, [[conv(x) for x in row] for row in v.d], v.kind, v.cplx)
+                if isinstance(v, Cx):
+                    return Cx(conv(v.re), conv(v.im))
+                if isinstance(v, Obj):
+                    return Obj(v.cls, {k: conv(x, (path + '.' if path else '') + k) for k, x in v.f.items()})
+                if z3.is_expr(v):
+                    return vals.get(str(v), 0.0)
+                if isinstance(v, bool):
+                    return bool(vals.get('#' + path, float(v)))
+                if isinstance(v, int):
+                    return int(vals.get('#' + path, float(v)))
+                return v
+            m = conv(so)
+            it = Interp(w, mode='float')
+            def cmp_(name, got, want):
+                nonlocal exact, approx
+                got = float(got)
+                if native.same_double(got, want):
+                    exact += 1
+                elif abs(got - want) <= 1e-12 * max(abs(want), 1e-300):
+                    approx += 1
+                else:
+                    mism.append({'fn': name, 'interpreter': repr(got), 'native': repr(want)})
+            for f, n in THDM_FUNCS:
+                want = pt['F'].get(n)
+                attempts += 1
+                try:
+                    fd = [x for x in w.find(n, f) if len(x.params) == 1][0]
+                    got = it.run_single(lambda: it.invoke(fd, [m], None))
+                except Exception as e:
+                    uneval[n] = str(e)[:120]
+                    continue
+                cmp_(n, got, want)
+            for n in THDM_GETTERS:
+                attempts += 1
+                try:
+                    got = it.run_single(lambda: it.call_method(m, n, []))
+                except Exception as e:
+                    uneval[n] = str(e)[:120]
+                    continue
+                cmp_(n, got, pt['G'][n])
+        # the root finder of the running quark masses (boost toms748) is outside the interpreter: models with running couplings are compared only where it is not reached
+        ok = not mism and (exact + approx) >= 0.5 * attempts
+        return {'ok': ok, 'points': len(points), 'compared_bit_exact': exact, 'compared_to_1e-12': approx, 'mismatches': mism[:5], 'attempted': attempts, 'not_evaluated': uneval,
                 'data_members_copied': len(leafs)}
     finally:
         native.cleanup(wd)
